@@ -253,16 +253,26 @@ class G:
     def window(self, d):
         self.f.add("window")
         fn = self.pick(WINDOW_FUNCS + tuple(f"{a}({c})" for a in AGGS[:3] for c in COLS[:2]))
+        nulls = ""
+        if self.b(1, 5):
+            # value functions, user-defined aggregates and the IGNORE|RESPECT NULLS modifier
+            self.f.add("window:value-fn")
+            fn = self.pick(("FIRST_VALUE(a)", "LAST_VALUE(b)", "LAG(a)", "LEAD(b, 1)", "NTH_VALUE(a, 2)", "my_udaf(a)", "my_udaf(a, b)", "COALESCE(a, b)"))
+            if self.b():
+                self.f.add("window:ignore-nulls")
+                nulls = self.pick((" IGNORE NULLS", " RESPECT NULLS"))
         parts = []
         if self.b():
             self.f.add("window:partition")
             parts.append(f"PARTITION BY {', '.join(self.column() for _ in range(self.i(1, 2)))}")
-        if self.b(2, 3) or fn in WINDOW_FUNCS:
+        if self.b(2, 3) or fn in WINDOW_FUNCS or nulls:
             parts.append(f"ORDER BY {self.order_items(d)}")
             if self.b(1, 3):
                 self.f.add("window:frame")
                 parts.append(self.pick(("ROWS BETWEEN UNBOUNDED PRECEDING AND CURRENT ROW", "ROWS BETWEEN 1 PRECEDING AND 1 FOLLOWING", "RANGE BETWEEN UNBOUNDED PRECEDING AND UNBOUNDED FOLLOWING")))
-        return f"{fn} OVER ({' '.join(parts)})"
+        if nulls and not parts:
+            parts.append("ORDER BY a")
+        return f"{fn}{nulls} OVER ({' '.join(parts)})"
 
     def order_items(self, d):
         items = []
